@@ -73,6 +73,9 @@ def _fund_vs_fee_denom(pn, pa):
 
 def _single_fund_amount(pn, pa):
     """an individual fund coin's amount (exact, not a paid sum) compared with an expected amount: the extra-funds decision"""
+    if pn == "contains" and len(pa) > 1:      # `expected_fees.contains(fund_coin)`: a whole fund coin looked up among the expected fees
+        coin_ = lambda v: exact_origins(v) == {"info.funds[*]"}   # noqa: E731
+        return coin_(pa[0]) or coin_(pa[1])
     if pn not in ("eq", "ne") or len(pa) < 2:
         return False
     one = lambda v: exact_origins(v) == {"info.funds[*].amount"} and all_origins(v) == {"info.funds[*].amount"}   # noqa: E731
@@ -185,6 +188,11 @@ def run(W, chk):
           for e in H.switches():
               dep |= {o for (o, ops) in H.I.flat(H.store, e.vals[0])}
           need = {"info.funds[*].denom", "info.funds[*].amount", "total_fees[*].denom", "total_fees[*].amount"}
+          b_ = W.F.get(fid)
+          pn_ = {b_.varname.get(i, "") for i in range(1, b_.argc + 1)}
+          if not {"info", "total_fees"} <= pn_:
+              chk.skip("DEP-extra-funds", "named helpers", "helper signatures changed (%s); the entry-level CUT-create guards decide the clause" % sorted(pn_))
+              raise StopIteration
           chk.expect(need <= dep, "DEP-extra-funds", "validate_no_additional_funds_sent_with_pool_creation",
                      "accept/reject depends on each fund coin's denom and amount and on each expected fee's denom and amount",
                      "the extra-funds decision does not depend on %s (it cannot reject a surplus coin it never looks at)" % sorted(need - dep),
@@ -203,6 +211,8 @@ def run(W, chk):
           chk.expect(len(paid_vs_fee) >= 2, "DEP-fees-paid", "validate_fees_are_paid",
                      "paid amounts are compared for equality with the creation fee and with each token-factory fee",
                      "equality comparisons of paid funds with the expected fees not found (%d)" % len(paid_vs_fee), W.F.get(fid2).span)
+      except StopIteration:
+          pass
       except KeyError as ex:
           chk.fail("DEP-extra-funds", "anchor", "helper not found: %s" % ex, "")
 
